@@ -115,14 +115,17 @@ PLAN = {
     "C05": dict(
         stages=[ls("C05", q=400), ls_async_quick("C05")],
         rule=LS + "; cleanup intervals 0.1/0.25/0.5/1/2(default, read back from the hook)/3/5 s, every tick phase",
-        clauses=["never early: reclaimed only with deadline <= tick time", "bounded delay: deadline + 1 s + interval <= tick time => gone from store, policy, len()", "on_evict exactly once with id and charged cost", "charge released"],
+        clauses=["never early: reclaimed only with deadline <= tick time", "bounded delay: deadline + 1 s + interval <= tick time => gone from store, policy, len()", "on_evict exactly once with id and charged cost", "charge released",
+                 "2 of 10 histories under a colliding key builder (inserts / removes of keys sharing the index hash): the never-early and bounded-delay clauses stay decided there (entry identified by its value id)",
+                 "real ticker (10 ms) scenario per flavour: wiring of the tick arm"],
         minimum=dict(quick=dict(ls_reclaimed_by_ttl=1000, ls_ticks=10000, ls_interval_ms_2000=50)),
         assumptions=["ticks are delivered (never skipped) at phase + n*interval of the virtual clock"],
     ),
     "C06": dict(
         stages=[ho("C06", q=60), ho("C06", q=24, t=240, shards_q=2, shards_t=8, flavors="tokio-mt,tokio-ct,seeded"), pairs(), ls("C06"), ga(), tsan("hostile")],
         rule=GA + " || " + HO + SAN + "; histories in which a call returned Err are excluded (the statement's exemption) and counted",
-        clauses=["keys(store) == keys(policy) at the quiescent end", "len() == number of resident entries", "same invariant after every lockstep step"],
+        clauses=["keys(store) == keys(policy) at the quiescent end", "len() == number of resident entries", "same invariant after every lockstep step",
+                 "async slice (tokio multi/current thread, seeded executor) with tiny insert buffers and no client-side wait(): a full buffer without any reported error"],
         minimum=dict(quick=dict(ho_c06_evaluations=60, ho_evictions_and_expiries=2000, ls_histories=200)),
         assumptions=["quiescent = clients joined, wait() Ok, tick handled, wait() Ok, hook counters stable across the snapshot"],
     ),
@@ -171,8 +174,9 @@ PLAN = {
         stages=[ls("C11", q=400), ho("C11", q=60), ga(), tsan("hostile")],
         rule=LS + " || " + HO + " || " + GA + SAN,
         clauses=["after clear(): every key absent, len 0, used 0, counters zero, histogram empty", "afterwards exactly the fresh-cache model, incl. keys re-used with another TTL or none across their old expiry seconds",
-                 "concurrent: nothing written before a completed clear() is returned afterwards; barrier clauses for inserts begun after clear() returned"],
-        minimum=dict(quick=dict(ls_clears=1000, ho_op_clear=300)),
+                 "concurrent: nothing written before a completed clear() is returned afterwards; barrier clauses for inserts begun after clear() returned",
+                 "fresh-equivalence: the history after the last clear(), replayed at the same virtual instants on a freshly built cache, gives identical returns, look-ups, TTLs, callbacks, resident entries, charges, metrics and histogram, record by record (every second below-capacity history; 2 of 10 under a colliding key builder)"],
+        minimum=dict(quick=dict(ls_clears=1000, ho_op_clear=300, c11_suffixes_replayed_on_a_fresh_cache=100)),
         assumptions=[],
     ),
     "C12": dict(
@@ -201,9 +205,9 @@ PLAN = {
         rule="one case = one filter (capacity in {1..10^5} x target rate {0.05,0.01,0.001} x added set {uniform, only-high-bits, only-low-bits, sequential}), filled to capacity; "
              "distinct by (capacity, rate, set kind, rng state)",
         clauses=["every added hash present right after its add", "all hashes added so far present at doubling checkpoints and at the end",
-                 "false-positive count over 20000 uniformly random never-added probes <= 3p*N + 7 sigma", "fresh filter empty", "reset/clear: no hash present, zero bits set", "usable after reset"],
-        minimum=dict(quick=dict(c14_adds=10000, c14_random_probes=200000)),
-        assumptions=["rate clause decided for uniformly random probes (for probes correlated with a structured added set no Bloom filter has a bound; those rates are measured and reported)"],
+                 "false-positive count over 20000 uniformly random never-added probes <= 3p*N + 7 sigma", "the same bound for 4000 never-added probes of each structured family (only high bits, only low bits, sequential), against every kind of added set", "fresh filter empty", "reset/clear: no hash present, zero bits set", "usable after reset"],
+        minimum=dict(quick=dict(c14_adds=10000, c14_random_probes=200000, c14_structured_probes=200000)),
+        assumptions=["'a small constant factor of p' is taken as 3 (plus 7 standard deviations of the binomial sampling error)"],
     ),
     "C15": dict(
         stages=[ls("C15", q=300), ho("C15", q=40)],
@@ -224,9 +228,9 @@ PLAN = {
         stages=[ls("C17", q=400), ho("C17", q=40)],
         rule=LS + " (tight capacity: evictions and rejections occur) || " + HO,
         clauses=["hits + misses == look-ups made since the last clear (interval bounds when calls overlap a clear)", "keys_added - keys_evicted == charged entries", "cost_added - cost_evicted == used (wrapping)",
-                 "sets_dropped == inserts that returned false", "sets_rejected == popularity rejections seen by the policy observer", "all zero after clear", "ratio() == hits/(hits+misses)",
+                 "sets_dropped == inserts that returned false", "sets_rejected == popularity rejections seen by the policy observer", "all zero after clear (a look-up made the instant clear() returned already counts in the new period)", "ratio() == hits/(hits+misses), also over windows with only hits, only misses, nothing (ratio scenarios on every flavour)",
                  "life-expectancy histogram: one sample per eviction/expiry of a tracked entry, in the bucket of its virtual lifetime; Count == sum of buckets"],
-        minimum=dict(quick=dict(ls_histories=300, ls_evicted_for_room=300, ho_c17_evaluations=100)),
+        minimum=dict(quick=dict(ls_histories=300, ls_evicted_for_room=300, ho_c17_evaluations=100, c17_ratio_windows_checked=100)),
         assumptions=[],
     ),
     "C18": dict(
@@ -254,10 +258,10 @@ PLAN = {
     ),
     "C20": dict(
         stages=[dict(engine="grid", shards=dict(quick=4, thorough=16))],
-        rule="configuration grid: num_counters 0..70,100,1000 x max_cost {0,1,2,10,-1,-100,2^62} x buffer_size {0,1,2,8} x buffer_items {0,1,2,64} x metrics x ignore_internal_cost x cleanup {1 ms, 1 s, default}; "
+        rule="configuration grid: num_counters 0..70,100,1000 x max_cost {0,1,2,10,-1,-100,2^62} x buffer_size {0,1,2,8} x buffer_items {0,1,2,64} x metrics x ignore_internal_cost x cleanup {1 ns, 1 us, 1 ms, 1 s, default}; three orders of builder calls; "
              "quick: every num_counters with rotating partners plus every triple of the small parameters; thorough: full product; flavours sync / tokio multi-thread / thread-per-task (thorough: all five)",
         clauses=["zero num_counters / max_cost / buffer size => the named error", "otherwise: workload of inserts (boundary costs), look-ups across aging resets, removes, TTL expiry, evictions, clear",
-                 "no panic on any thread (process-wide panic hook)", "both workers alive until close", "wait() returns Ok", "a final insert is still handled", "close ends both workers"],
+                 "no panic on any thread (process-wide panic hook)", "both workers alive until close", "no hang and no livelock (a thread burning CPU inside the cache without logical progress)", "wait() returns Ok", "a final insert is still handled", "close ends both workers"],
         minimum=dict(quick=dict(lc_grid_scenarios=400)),
         assumptions=[],
     ),
